@@ -1472,7 +1472,8 @@ class ArgumentParser(ParserDeprecations, ActionsContainer, ArgumentLinking, argp
                 raise TypeError(f'Parser key "{key}": {ex}') from ex
         if not is_subcommand and action.choices:
             vals = value if _is_action_value_list(action) else [value]
-            assert isinstance(vals, list)
+            if not isinstance(vals, list):
+                raise TypeError(f'Parser key "{key}": expected a list. Got value: {value!r}')
             for val in vals:
                 if val not in action.choices:
                     raise TypeError(f'Parser key "{key}": {val!r} not among choices {action.choices}')
